@@ -126,6 +126,7 @@ def run(ctx):
     from ..tlaparse import iter_dump
     from .C14 import literal_accepted
     nlit = npy = nann = 0
+    hashed = set()
     for st in iter_dump(r.dump):
         if st['fam'] != 'compare' or len(st['hist']) != 1 or st['status'] != 'running':
             continue
@@ -140,6 +141,22 @@ def run(ctx):
                 if got != cmpv:
                     ctx.mismatch('C03:compare:one-operand-at-annotated-type', 'COMPARE of %s and %s of type %s with the %s operand typed with field/type annotations on its inner pairs gives %s, model Cmp = %d' % (
                         a, b_, t, 'first' if which == 0 else 'second', got, cmpv), {'family': 'cmp-annot', 'type': t, 'a': a, 'b': b_, 'cmp': cmpv})
+        # values that are equal (COMPARE = 0; annotations are not part of a value) are one key: wherever pytezos keeps keys in hashed containers
+        # (local layer of a big_map, removed keys, Python dict / set objects) equal values must hash alike, whatever annotated type each lives at
+        if (t, a) not in hashed:
+            hashed.add((t, a))
+            try:
+                x, y = vmreplay.make_item(t, a), vmreplay.make_item(t, a, annotate=_annotate_all)
+                hx, hy = hash(x), hash(y)
+            except TypeError:
+                hx = hy = None      # not hashable at all: never used as a hashed key
+            if hx is not None:
+                ctx.count(('hash', t, a), nontrivial=True)
+                if x == y and hx != hy:
+                    ctx.mismatch('C03:equal-values-hash-apart:%s' % t[0], 'the value %s of type %s and the same value at the annotated type %s are equal (COMPARE = 0) but hash differently: as keys of a hashed container they are two keys' % (
+                        a, t, terms.type_json(t)), {'family': 'hash', 'type': t, 'a': a, 'b': a, 'cmp': 0})
+                elif not (x == y):
+                    ctx.mismatch('C03:same-value-at-annotated-type-not-equal:%s' % t[0], 'the value %s of type %s is not equal to itself at the annotated type' % (a, t), {'family': 'hash', 'type': t, 'a': a, 'b': a, 'cmp': 0})
         if t in (UNIT,) or (ctx.quick and nlit > 1500):
             continue
         for kind, ct in (('set', SET(t)), ('map', MAP(t, UNIT)), ('big_map', ('big_map', t, UNIT))):
@@ -195,6 +212,16 @@ def _annotate_inner(tj, depth=0):
         out['args'] = [_annotate_inner(a, depth + 1) for a in tj['args']]
     if tj.get('prim') == 'pair' and depth > 0:
         out['annots'] = ['%f' + str(depth), ':t' + str(depth)]
+    return out
+
+
+def _annotate_all(tj, depth=0, parent=None):
+    if not isinstance(tj, dict):
+        return tj
+    out = dict(tj)
+    if 'args' in tj:
+        out['args'] = [_annotate_all(a, depth + 1, tj.get('prim')) for a in tj['args']]
+    out['annots'] = ['%g' + str(depth)] if parent in ('pair', 'or') else [':g' + str(depth)]     # field annotations on components of pair / or only
     return out
 
 
